@@ -845,6 +845,44 @@ def r21(ctx, rep):
                   "sub-query is built without the column and the SELECT of the take names a column that does not exist there", file=f["file"], line=arm["l"], fn=f["path"])
 
 
+def r22(ctx, rep):
+    rep.rule("C07.R22", "positional pairing of the fields of two relations never pairs a column with a wildcard", floor=1)
+    import alpha
+    import guards as _g
+    syn = ctx.syn
+    f = syn.fn("resolve_special_func", crate="prqlc")
+    arm = None
+    for m in matches_of(f["body"]):
+        for a in m["arms"]:
+            if any(x.get("k") == "lit" and x.get("v") == "tuple_zip" for x in walk(a["pat"])):
+                arm = a
+    if arm is None:
+        raise AnchorMissing("resolve_special_func: no arm \"tuple_zip\"")
+    body = arm["body"]
+    A = alpha.Inliner(f)
+    # the pairing: `zip(a, b)` / `a.zip(b)` whose pairs are pushed / collected
+    zips = [n for n in walk(body) if (n.get("k") == "call" and last_seg(show(n["f"])) == "zip" and len(n["a"]) == 2) or (n.get("k") == "mcall" and n["m"] == "zip")]
+    if not zips:
+        raise AnchorMissing("tuple_zip arm: no zip of the two field lists")
+    # a rejecting guard: an `if` whose then-branch returns an Err and whose condition (locals and closures inlined) looks at the wildcard-ness (`flatten` / `ExprKind::All`) of the elements
+    guards_found = []
+    for n in walk(body):
+        if n.get("k") == "if" and n.get("e") is None and _g._diverges(n["t"]) and any(x.get("k") == "path" and last_seg(x["p"]) == "Err" for x in walk(n["t"])):
+            txt = A.show(n["c"])
+            # closures bound to locals are inlined by name: look at their bodies too
+            extra = ""
+            for loc in walk(body):
+                if loc.get("k") == "local" and loc.get("init") is not None and loc["init"].get("k") == "closure" and loc["pat"].get("k") == "p_ident" and loc["pat"]["n"] in show(n["c"], maxdepth=12):
+                    extra += " " + show(loc["init"], maxdepth=12)
+            if re.search(r"\bflatten\b|ExprKind::All", txt + extra):
+                guards_found.append(n)
+    first_zip_line = min(z["l"] for z in zips if not any(_g._contains(g["c"], z) for g in guards_found)) if [z for z in zips if not any(_g._contains(g["c"], z) for g in guards_found)] else None
+    ok = bool(guards_found) and first_zip_line is not None and any(g["l"] < first_zip_line for g in guards_found)
+    rep.check(ok, "tuple_zip:wildcard-paired", "std.tuple_zip (used by `remove` / `intersect` to compare the two relations column by column) pairs the fields of its two arguments by position "
+              "without rejecting a pair of a known column and the wildcard of a relation whose columns are not known: `from t | select {a, b} | remove u` compiles to `.. ON t.a = b.* WHERE b.* IS NULL`",
+              file=f["file"], line=arm["l"], fn=f["path"])
+
+
 def run(ctx, rep):
-    for r in (r1, r2, r3, r4, r5, r6, r7, r8, r9, r10, r11, r12, r13, r14, r15, r16, r17, r19, r20, r21):
+    for r in (r1, r2, r3, r4, r5, r6, r7, r8, r9, r10, r11, r12, r13, r14, r15, r16, r17, r19, r20, r21, r22):
         rep.guard(r, ctx)
